@@ -55,9 +55,13 @@ def main(argv):
         r = judge(mid, keep_output=True)
         print(json.dumps(r))
         sys.stdout.flush()
+        meta = json.load(open(os.path.join(SEEDED, mid, "meta.json")))
         if r.get("error") or r.get("rc") == 2:
             errors.append(mid)
         elif not r.get("detected"):
-            missed.append(mid)
+            if meta.get("expected_quick") == "miss":
+                print("  (%s is documented as caught by the thorough tier only)" % mid)
+            else:
+                missed.append(mid)
     print("selftest-mutants: %d changes, %d missed %s, %d errors %s" % (len(ids), len(missed), missed, len(errors), errors))
     return 0 if not missed and not errors else 1
